@@ -347,3 +347,34 @@ Print Assumptions c15_str_contains_freshness.
 Theorem c15_elim_var_wf : ltac:(let t := type of rw_elim_var_wf in exact t).
 Proof. exact rw_elim_var_wf. Qed.
 Print Assumptions c15_elim_var_wf.
+
+(* ---- "is this name taken" is no longer an oracle: Model/Declared.v models the tables of collect_information that
+   is_declared_symbol consults (since the repair: every token of the input as well), Spec/DeclaredSpec.v / DeclaredWide.v say
+   independently what a script declares, binds or mentions, and Props/DeclaredProps.v proves completeness and connects it with
+   the freshness theorems above: a declaration proposed by one of the three declaring mutators declares a name that is no token
+   of the script (modulo bars), whichever way of declaring or binding a symbol SMT-LIB offers *)
+From DD Require Import Props.DeclaredProps.
+Theorem c15_declared_completeness : ltac:(let t := type of completeness in exact t).
+Proof. exact completeness. Qed.
+Print Assumptions c15_declared_completeness.
+Theorem c15_declared_completeness_wide : ltac:(let t := type of completeness_wide in exact t).
+Proof. exact completeness_wide. Qed.
+Print Assumptions c15_declared_completeness_wide.
+Theorem c15_every_token_is_taken : ltac:(let t := type of occurs_is_declared in exact t).
+Proof. exact occurs_is_declared. Qed.
+Print Assumptions c15_every_token_is_taken.
+Theorem c15_bars_do_not_matter : ltac:(let t := type of aliasing in exact t).
+Proof. exact aliasing. Qed.
+Print Assumptions c15_bars_do_not_matter.
+Theorem c15_fresh_variable_is_fresh_for_the_script : ltac:(let t := type of introduce_fresh_variable_fresh_wrt_wide_spec in exact t).
+Proof. exact introduce_fresh_variable_fresh_wrt_wide_spec. Qed.
+Print Assumptions c15_fresh_variable_is_fresh_for_the_script.
+Theorem c15_reduced_bw_variable_is_fresh_for_the_script : ltac:(let t := type of bv_reduce_bw_fresh_wrt_wide_spec in exact t).
+Proof. exact bv_reduce_bw_fresh_wrt_wide_spec. Qed.
+Print Assumptions c15_reduced_bw_variable_is_fresh_for_the_script.
+Theorem c15_str_contains_variables_are_fresh_for_the_script : ltac:(let t := type of str_contains_fresh_wrt_wide_spec in exact t).
+Proof. exact str_contains_fresh_wrt_wide_spec. Qed.
+Print Assumptions c15_str_contains_variables_are_fresh_for_the_script.
+Theorem c15_declared_monotone_under_insertion : ltac:(let t := type of monotone_is_declared_insert in exact t).
+Proof. exact monotone_is_declared_insert. Qed.
+Print Assumptions c15_declared_monotone_under_insertion.
